@@ -19,6 +19,8 @@ Sub-spaces (`sub` of a case):
   rxspecies  a reaction of a network naming an undeclared species on either side, through every construction route
   mandatory  every key without a documented default removed from minimal and complete dictionaries, nested and file routes
   dictvalue  unknown values of the enumerated / typed dictionary fields through direct, nested and file routes
+  overridelen per-species state / chemostat override dictionaries whose arrays have the wrong length
+  (dim also presents malformed unit TEXT of the right dimension at every text form of every field)
   envlen    cell_env of length n-1, n+1, 0 (constructor, setter, dictionaries; list / tuple / ndarray)
   envidx    an environment index >= number of environments at each cell, at every point of use (system
             construction with default state / chemostats, set_default_*, generate_*, kinetics, engine set-up)
@@ -742,6 +744,36 @@ def _dim_n(field):
     return 4
 
 
+def _malformed_units(sys3, dim):
+    """Unit texts that the documented grammar (mc/ref/grammar, written from using_quantities_with_units.rst: no
+    successive / leading / trailing separators, integer exponents only) calls INVALID and that would have exactly the
+    field's dimension if the offending block were simply skipped."""
+    T = si.units_string(sys3, dim)
+    if T == "":
+        return []
+    parts = T.split(".")
+    cands = [T + ".", T + "/", "." + T, T + "//", T + "..", T + ".5", T + ".2", T + "/1",
+             parts[0] + ".5" + "".join("." + x for x in parts[1:]),
+             ".".join(parts[:-1] + [parts[-1] + ".5"])]
+    if len(parts) > 1:
+        cands += [T.replace(".", "..", 1), ".".join(parts[:-1]) + ".." + parts[-1]]
+    out = []
+    for c in cands:
+        if c not in out and grammar.classify_quantity("1.5 " + c).status == grammar.INVALID:
+            out.append(c)
+    return out
+
+
+def _malformed_value(form, text, n):
+    if form == "str":
+        return "1.5 " + text
+    if form == "envdict-str":
+        return {"e0": "1.5 " + text}
+    if form == "unitarray-dict":
+        return {"value": [1.5] * n, "units": text}
+    return None
+
+
 def _dim_history():
     """Process history: every dimension that is WRONG for one field is RIGHT for another one; all fields are used
     validly (text and UnitValue, both unit systems) before the wrong dimensions are presented."""
@@ -808,6 +840,19 @@ def _dim(case, out):
             reject(out, "dimension", site,
                    "%s via %s with %s (dimension %s, field dimension %s)" % (field, route, _show(v), wrong, right),
                    f, item, s)
+    # malformed unit TEXT of the right dimension (documented as wrong): must be refused, not read without the bad block
+    if form in ("str", "envdict-str", "unitarray-dict"):
+        for sys3 in (S0, S1):
+            for text in _malformed_units(sys3, right):
+                item = {"malformed": text}
+                if not _selected(only, item):
+                    continue
+                inter.tick()
+                v = _malformed_value(form, text, n)
+                f, s = _dim_attempt(field, route, v, ctx)
+                reject(out, "malformed-units", "%s:malformed-units:%s:%s:%s" % (P, field, route, form),
+                       "%s via %s with %s (malformed unit text; without the offending block it would have the field's "
+                       "dimension %s)" % (field, route, _show(v), right), f, item, s)
     return True
 
 
@@ -2375,12 +2420,67 @@ def _dictvalue(case, out):
     return True
 
 
+# ---- per-species override dictionaries of the wrong length ("... length must match the system size") ---------------
+
+OVERRIDE_ROUTES = ("RDSystem(state=dict)", "set_default_state", "generate_system_state",
+                   "RDSystem(chemostats=dict)", "set_default_chemostats", "generate_system_chemostats")
+
+
+def _overridelen(case, out):
+    spec, nsp, route = case["space"], case["nsp"], case["route"]
+    only = case.get("only")
+    net = _net(nsp, 2)
+    space = _space(spec)
+    n = space.size()
+    is_state = "state" in route
+    key = "%s:override-length:%s" % (P, route)
+
+    def value(ln):
+        if is_state:
+            return UnitArray([float(p) for p in _primes(ln + 3)[3:]], "molecule")
+        return [1] * ln
+
+    def attempt(s, d):
+        if route == "RDSystem(state=dict)":
+            return lambda: RDSystem(net, space, state=d)
+        if route == "RDSystem(chemostats=dict)":
+            return lambda: RDSystem(net, space, chemostats=d)
+        if route == "set_default_state":
+            return lambda: s.set_default_state(d)
+        if route == "set_default_chemostats":
+            return lambda: s.set_default_chemostats(d)
+        if route == "generate_system_state":
+            return lambda: generate_system_state(net, space, UnitsSystem(), d)
+        return lambda: generate_system_chemostats(net, space, d)
+    s = _explicit_system(net, space)
+    # the valid route (right length) is the subject of C13 and does not work on every tree: soft
+    try:
+        attempt(_explicit_system(net, space), {net.species[0].label: value(n)})()
+        out.count("valid_accepted:override-length")
+    except Exception:
+        out.count("valid_override_route_unavailable")
+    for i in range(nsp):
+        lab = net.species[i].label
+        for ln in (0, 1, 2, n - 1, n + 1, 2 * n):
+            if ln == n or ln < 0:
+                continue
+            item = {"species": lab, "len": ln}
+            if not _selected(only, item):
+                continue
+            sys_ = s if route.startswith("set_default") else None
+            reject(out, "override-length", key,
+                   "%s with {%r: %s of length %d} on a %s (%d cells)" % (route, lab, "UnitArray" if is_state else "list",
+                                                                         ln, _space_tag(spec), n),
+                   attempt(s, {lab: value(ln)}), item, sys_)
+    return True
+
+
 # =====================================================================================================
 # dispatch, enumeration
 # =====================================================================================================
 
 SUBS = {"keys": _keys, "dim": _dim, "usym": _usym, "gridsize": _gridsize, "envlen": _envlen, "envidx": _envidx,
-        "enum": _enum, "edgeidx": _edgeidx, "cgperiodic": _cgperiodic, "rxspecies": _rxspecies, "mandatory": _mandatory, "dictvalue": _dictvalue, "pos": _pos, "species": _species, "reaction": _reaction, "cgmap": _cgmap}
+        "enum": _enum, "edgeidx": _edgeidx, "cgperiodic": _cgperiodic, "rxspecies": _rxspecies, "mandatory": _mandatory, "dictvalue": _dictvalue, "overridelen": _overridelen, "pos": _pos, "species": _species, "reaction": _reaction, "cgmap": _cgmap}
 
 
 def _run_case(case):
@@ -2530,6 +2630,12 @@ def _spaces(tier):
             if not thorough and space == "graph" and not (f[0].startswith("units@") or f[0] == "space.type"):
                 continue        # quick: the script / system level fields over the grid base only
             small.append({"sub": "dictvalue", "space": space, "field": f[0], "path": f[1]})
+    for spec in ([{"type": "grid", "w": 2, "h": 1, "d": 1, "per": 0}, {"type": "grid", "w": 3, "h": 2, "d": 1, "per": 0},
+                  {"type": "graph", "n": 3}] + ([{"type": "grid", "w": 1, "h": 1, "d": 1, "per": 0}, {"type": "graph", "n": 1},
+                                                 {"type": "graph", "n": 4}] if thorough else [])):
+        for nsp in (1, 2, 3):
+            for route in OVERRIDE_ROUTES:
+                small.append({"sub": "overridelen", "space": spec, "nsp": nsp, "route": route})
     for base in MAND_BASES:
         for top in MAND_TOPS:
             for route in ("from_dict", "load"):
